@@ -160,7 +160,10 @@ def history(draw, regkind='posix', gap=False):
             op['crash'] = {'k': draw(st.integers(0, 40)), 'j': draw(st.sampled_from(fault.JMODES))}
         follow = op if kind == 'prune' else None
         ops.append(op)
-    return {'registry': regkind, 'ops': ops}
+    spec = {'registry': regkind, 'ops': ops}
+    if crashable:
+        spec['staging'] = draw(st.sampled_from([None, None, 'other-fs']))
+    return spec
 
 
 # ---- model -------------------------------------------------------------------------------------------------------------
@@ -836,10 +839,31 @@ def check_history(ctx, spec):
         replay_records(ctx, records)
         return
     ex = ForkExec(os.path.join(e['base'], f"h{next(e['counter'])}"))
+    staging = _foreign_staging(e['base']) if spec.get('staging') == 'other-fs' else None
     try:
+        if staging:
+            os.environ['VF_C05_STAGING'] = staging
+            ctx.klass('staging:other-file-system')
         History(ctx, spec, ex, e['packages'], sweep_all=ctx.tier == 'thorough').run()
     finally:
+        os.environ.pop('VF_C05_STAGING', None)
+        if staging:
+            shutil.rmtree(staging, ignore_errors=True)
         ex.close()
+
+
+def _foreign_staging(base: str):
+    """A fresh directory on a file system other than the registry's (``staging=`` of the posix registry may point anywhere),
+    or None where the machine offers none."""
+    import tempfile
+
+    for cand in ('/dev/shm', '/run/user', '/var/tmp'):
+        try:
+            if os.path.isdir(cand) and os.access(cand, os.W_OK) and os.stat(cand).st_dev != os.stat(base).st_dev:
+                return tempfile.mkdtemp(prefix='vf-c05-stage-', dir=cand)
+        except OSError:
+            continue
+    return None
 
 
 def _train(p, r, states, ts, mode='trigger', **kw):
@@ -968,6 +992,8 @@ def enumerate_extra(ctx, shard, nshards):
         if idx % nshards != shard:
             continue
         check_history(ctx, {'registry': 'posix', 'ops': ops})
+        if any(op['op'] == 'publish' and op.get('sweep') for op in ops):  # the same sweep with the staging area elsewhere
+            check_history(ctx, {'registry': 'posix', 'ops': ops, 'staging': 'other-fs'})
         if all(op['op'] != 'prune' and 'crash' not in op for op in ops):
             ctx.campaign = 'volatile'
             check_history(ctx, {'registry': 'volatile', 'ops': [{k: v for k, v in op.items() if k != 'sweep'} for op in ops]})
